@@ -335,6 +335,31 @@ func (g *gen) resendRounds(w *world) {
 	}
 }
 
+
+// C19: replies the conversation owes (error messages) are handed out by the call that caused them;
+// nothing queues up however many rejected messages or fragments arrive
+func (g *gen) rejectedInputRounds(w *world) {
+	w.parties = map[string]*party{}
+	w.dead = false
+	a := w.newParty(partyCfg{policies: 4, keyIdx: 0, errh: true, tag: 0x300})
+	kinds := []string{
+		"?OTR|00000005|00000300,00001,00002,abc,", // malformed sender tag in a fragment
+		"?OTR|00000400|00000007,00001,00002,abc,", // malformed receiver tag in a fragment
+		"?OTR:AAMDAAAABQAAAwAA.",                   // malformed tags in an encoded message
+		"?OTR:AAMD.",
+		"?OTR|00000400|00000300,00003,00002,abc,", // illegal fragment numbers
+	}
+	for round := 1; round <= 12 && !w.dead; round++ {
+		m := []byte(kinds[g.r.Intn(len(kinds))])
+		w.recv(a, m)
+		olog.ok("C19")
+		if n := otr3.VerifSnapshot(a.c).Injections; n > 0 {
+			olog.viol("C19", "replies-queue-up", fmt.Sprintf("after %d rejected inputs (last: %q) %d replies are still held back in the conversation", round, m, n))
+			return
+		}
+	}
+}
+
 func init() {
 	profiles["mem"] = func(seed int64, n int, out *emitter, extra map[string]interface{}) map[string]int {
 		g := &gen{r: rand.New(rand.NewSource(seed)), out: out, dist: map[string]int{}}
@@ -344,6 +369,7 @@ func init() {
 			g.memScenario(w, 40+g.r.Intn(60))
 			if i%4 == 0 {
 				g.resendRounds(w)
+				g.rejectedInputRounds(w)
 			}
 		}
 		extra["panics"] = panicCount
